@@ -359,6 +359,67 @@ pub fn call(wb: &mut Wb, c: &str) -> String {
                 _ => "unsupported".to_string(),
             }
         }
+        // ---- raw cache operations of the xlsx reader (C07 cache model): the load calls and the
+        // reading calls separately; a reading call on a cache that was never loaded panics by
+        // contract (.expect), which is answered "panic" without ending the call sequence
+        "loadmerges" => match wb {
+            Wb::Xlsx(x) => match x.load_merged_regions() {
+                Err(_) => "loaded:0".to_string(),
+                Ok(()) => "loaded:1".to_string(),
+            },
+            _ => "unsupported".to_string(),
+        },
+        "loadtables" => match wb {
+            Wb::Xlsx(x) => match x.load_tables() {
+                Err(_) => "loaded:0".to_string(),
+                Ok(()) => "loaded:1".to_string(),
+            },
+            _ => "unsupported".to_string(),
+        },
+        "rawmerges" | "rawmergesby" | "rawtables" | "rawtablesin" | "rawtable" => {
+            let n = name(1);
+            match wb {
+                Wb::Xlsx(x) => {
+                    let op = f[0];
+                    let r = std::panic::catch_unwind(std::panic::AssertUnwindSafe(|| match op {
+                        "rawmerges" => x
+                            .merged_regions()
+                            .iter()
+                            .map(|(s, p, d)| format!("{}:{}:{}", hexstr(s), hexstr(p), dims_str(d)))
+                            .collect::<Vec<_>>()
+                            .join("/"),
+                        "rawmergesby" => x
+                            .merged_regions_by_sheet(&n)
+                            .iter()
+                            .map(|(s, p, d)| format!("{}:{}:{}", hexstr(s), hexstr(p), dims_str(d)))
+                            .collect::<Vec<_>>()
+                            .join("/"),
+                        "rawtables" => x.table_names().iter().map(|s| hexstr(s)).collect::<Vec<_>>().join(","),
+                        "rawtablesin" => x
+                            .table_names_in_sheet(&n)
+                            .iter()
+                            .map(|s| hexstr(s))
+                            .collect::<Vec<_>>()
+                            .join(","),
+                        _ => match x.table_by_name(&n) {
+                            Err(e) => format!("err:{}", xlsx_err(&e)),
+                            Ok(t) => format!(
+                                "{}|{}|{}|{}",
+                                hexstr(t.name()),
+                                hexstr(t.sheet_name()),
+                                t.columns().iter().map(|c| hexstr(c)).collect::<Vec<_>>().join(","),
+                                range_str(t.data())
+                            ),
+                        },
+                    }));
+                    match r {
+                        Ok(s) => s,
+                        Err(_) => "panic".to_string(),
+                    }
+                }
+                _ => "unsupported".to_string(),
+            }
+        }
         "vba" => {
             let r = each!(wb, x => x.vba_project().map(|r| r.map(|v| v.into_owned()).map_err(|_| ())));
             match r {
